@@ -4,6 +4,10 @@ import json, os, subprocess
 ROOT = os.path.dirname(os.path.dirname(os.path.abspath(__file__)))
 
 CHECKS = {
+    "C05": dict(level="model_checking", design="DESIGN.md section 5 C05",
+                technique="TLA+ reference semantics (Core.tla jump/handler actions); TLC validates recorded trace-token runs",
+                text="Programs in which every statement prints a trace token: all GOTO source/target layouts of a skeleton in main and inside a SUB, all pairs of loop kinds left by GOTO to three landing sites, all GOSUB nesting shapes up to depth 3 (also inside loops and SUBs), RETURN without GOSUB and RETURN label, and error-trap programs (failing statement kind x host block x position x handler mode, failing block headers, all orders of ON ERROR GOTO / RESUME NEXT / GOTO 0). Each recorded run is validated by TLC against Core.tla.",
+                note="Trusted: renderer, TLC. Not generated: RESUME NEXT on failing block headers; errors inside callees while a handler is active (left open by the property)."),
     "C01": dict(level="model_checking", design="DESIGN.md section 5 C01",
                 technique="TLA+ reference semantics (Core.tla); TLC validates recorded runs of the real interpreter",
                 text="Families of core-language programs (all ordered pairs and selected triples of 14 block constructs, "
